@@ -319,7 +319,7 @@ func checkLineDiscipline(s *gen.MsgSpec, out []byte, viol func(key, what string,
 				}
 				got := leaves[i].Get("Content-Description")
 				if len(got) == 0 {
-					// (a message that consists of one body part carries no Content-Description at all: nothing was generated
+					// (no Content-Description although one was set: the absence of a field is C02's business, nothing was generated
 					// that could be judged here - counted)
 					count("descriptions_not_emitted", 1)
 					continue
